@@ -329,17 +329,29 @@ def runRaw (checked : Bool) (oob : IntKind → Num → Int) : Target → List Va
           .ret (packRet r.1) r.2
       else .panic
 
-/-- facts about the source text of `Run` (regenerated from /repo, see `Ecal.Gen.C19`) -/
-structure Shape where
-  errIsNamedResult : Bool      -- the result list declares a result named `err` of type error
-  firstStmtIsDefer : Bool      -- the first statement of the body is `defer func() {…}()`
-  closureCallsRecover : Bool   -- that closure evaluates `recover()` directly (not in a nested function)
-  closureAssignsErr : Bool     -- … and assigns `err` under `r != nil`
-  arityChecked : Bool          -- surplus arguments are rejected by an explicit `return nil, <error>`
+/-- a fact about the source text, as the extractor (`harness C19 -tool`, go/ast over stdlib/*.go)
+    decides it: established, positively refuted, or this source shape is not understood -/
+inductive Fact where
+  | yes | no | unknown
   deriving DecidableEq, Repr
 
-def Shape.recovers (s : Shape) : Bool :=
-  s.errIsNamedResult && s.firstStmtIsDefer && s.closureCallsRecover && s.closureAssignsErr
+/-- Only a positively refuted fact breaks a proof obligation. Where a fact is `unknown` the theorems
+    are about the code *under the assumption* that it holds; the check then says so in its evidence
+    and searches harder (the correspondence run would exhibit the crash / the wrong error). -/
+def Fact.notRefuted : Fact → Bool
+  | .no => false
+  | _ => true
+
+/-- the two facts about `Run` the model depends on (see `Ecal.Gen.C19` for their regenerated values) -/
+structure Shape where
+  /-- `Run` defers a function (a literal, or a function of the package) whose own body calls
+      `recover()` and, when that returned non-nil, assigns `Run`'s named error result (directly or
+      through a pointer parameter given `&err`) -/
+  recovers : Bool
+  /-- before reflect's `Call` the number of arguments is compared with `NumIn()` and surplus
+      arguments end in a returned error (in `Run` or in a helper it calls before `Call`) -/
+  arityChecked : Bool
+  deriving DecidableEq, Repr
 
 inductive Outcome where
   | done (ret : Ret) (err : Option Err)   -- `Run` returned (ret, err)
